@@ -154,6 +154,13 @@ def build_system(api, O, par, spec):
     elif S.form == "sum":
         scale = 1.0 + spec["beta"]
         S.A = plain_blocked(range(m), range(n)) + plain_blocked(range(m), range(n)) * spec["beta"]
+    elif S.form == "product":
+        # (diag of identity operators range_i -> range_i) * B: weak form = diag(M_i) M_i^-1 B_w = B_w, but the object is a
+        # ProductBlockedOperator whose domain spaces are those of the RIGHT factor
+        Idiag = api.BlockedOperator(m, m)
+        for i in range(m):
+            Idiag[i, i] = api.operators.boundary.sparse.identity(S.ranges[i], S.ranges[i], S.duals[i], parameters=par)
+        S.A = Idiag * plain_blocked(range(m), range(n))
     elif S.form == "generalized":
         S.A = api.GeneralizedBlockedOperator([[lib(i, j) for j in range(n)] for i in range(m)])
     elif S.form == "generalized_nested":
@@ -252,6 +259,9 @@ def system_specs(api, M, O, ctx):
         if first or not ctx.quick:
             cplx = [[[T(H, "single_layer", 1.0, kc)], [T("sparse", "identity", 1.0j)]], [[ident], dl]]
             add("blkcplx", "blocked", "blocked", [dp0s, p1s], [dp0, p1], [dp0, p1], cplx, descr="complex blocked with real and complex blocks")
+        if first:
+            add("blkprod", "blocked", "product", [p1s, dp0s], [dp0, p1], [dp0, p1], cheap_perm,
+                descr="diag(I) * [[M, V],[1/2I-K, M^T]] (ProductBlockedOperator; domain spaces (P1s,DP0s) differ from those of the left factor)")
         if first:
             add("blk_rd", "blocked_rd", "blocked", [dp0s, p1s], [p1, p1], [dp0, p1], cheap,
                 descr="blocked, block row 0 has range P1 (nv dofs) but dual DP0 (ne dofs): weak form only")
